@@ -29,7 +29,7 @@ Qed.
 Lemma is_von_name_good t : t <> [] -> good (is_von_name t).
 Proof.
   destruct t as [|c t]; [congruence|]. intros _. unfold is_von_name.
-  destruct (is_upper c); [exact I|]. destruct (is_lower c); [exact I|].
+  destruct (uni_is_upper c); [exact I|]. destruct (uni_is_lower c); [exact I|].
   apply good_bind; [apply scan_go_good|intros; exact I].
 Qed.
 
